@@ -445,7 +445,11 @@ func (s *search) run(maxDepth int, alphaAt func(level int) []uint8, deadline tim
 // ---------------------------------------------------------------- main
 
 func main() {
+	netWorkerEntry()
 	run := core.Start("C16", "model_checking", "XSTATE")
+	if run.ReplayPath != "" && netReplay(run) {
+		run.Finish(nil, nil)
+	}
 	if pf := os.Getenv("VERIF_C16_PROF"); pf != "" {
 		f, _ := os.Create(pf)
 		pprof.StartCPUProfile(f) // development aid; stopped before Finish
@@ -578,18 +582,39 @@ func main() {
 	}
 	execs := atomic.LoadInt64(&c.nBuilds) + atomic.LoadInt64(&s.futBuilds)
 	pprof.StopCPUProfile()
+	chainCov := chainPart(run)
+	netCov := netPart(run)
+	addInt := func(k string) int64 {
+		var t int64
+		for _, c := range []core.Coverage{chainCov, netCov} {
+			switch x := c[k].(type) {
+			case int:
+				t += int64(x)
+			case int64:
+				t += x
+			}
+		}
+		return t
+	}
+	exhaustiveAll := !capped
+	if e, ok := netCov["exhaustive"].(bool); ok && !e {
+		exhaustiveAll = false
+	}
 	run.Finish(core.Coverage{
+		"state_chains":                  chainCov,
+		"replicas":                      netCov,
 		"states":                        len(s.seen),
 		"transitions":                   s.transitions,
-		"traces_validated_against_impl": s.transitions + int64(len(s.starts)),
-		"evaluations":                   execs,
+		"traces_validated_against_impl": s.transitions + int64(len(s.starts)) + addInt("evaluations"),
+		"evaluations":                   execs + addInt("evaluations"),
 		"distinct_nontrivial":           c.seqs.Len(),
 		"rule": "breadth-first over ALL operation histories of length <= depth_by_set_size[n] from every start set of n members (plus, time permitting, the extension_beyond_bounds, reported separately and not part of 'exhaustive') (powers in {1,2,3,5}^n, n<=3: all 84; n=4: 6 vectors incl. all-equal, pairwise-equal and one ~2^60); " +
 			"the first wide_depth operations of a history range over the wide alphabet (IncrementAccum 1|2|3, Proposer, Hash, save/load through state.State, Add of a new member below/between/above the existing ones, Add of an existing address, Update of every position to every other power in {1,2,3,5}, Remove of every position, Copy; each addressed to either of two live copies), later operations over the core alphabet (IncrementAccum 1|2|3, save/load, Add in the middle, Update first member one power step up / last member one step down, Remove first/last, Copy; either copy); " +
 			"every history is replayed on a fresh real ValidatorSet and observed only at its end; states = distinct canonical keys (members+powers+accums in order, Proposer().Address, TotalVotingPower() of both copies, modulo exchanging the copies); a history reaching a known key is not expanded again, instead its next-operation observations are compared with the representative's (merge oracle) unless its complete concrete state incl. cache fields equals one already compared or it has maximal length (never expanded anyway); " +
 			"per history: R3 (lineage of each copy alone), R4 (same history without save/load steps), membership reference; per state: R1 (second run, members offered in opposite order, incl. Hash), R6, R2 (every composition of rounds 2..max_round via Copy+IncrementAccum), R5 (2T single selections, all T+1 windows); " +
 			"transitions = enabled (state, operation) pairs executed; traces_validated_against_impl = enumerated histories (start sets + transitions), every one executed on the real code; evaluations = executions of a history on the real code (main runs, comparison partners, follow-ups of the merge oracle); distinct_nontrivial = distinct (member list, selection sequence) pairs seen in R5",
-		"exhaustive":                      !capped,
+		"exhaustive":                      exhaustiveAll,
+		"exhaustive_set_histories":        !capped,
 		"bounds":                          map[string]interface{}{"depth_by_set_size": depthByN, "wide_depth": wideDepth, "depth_completed": done, "max_round_R2": c.maxRound, "fairness_total_power_cap": c.fairCap, "start_sets": len(s.starts), "wide_alphabet": len(wide), "core_alphabet": len(coreA), "merge_alphabet": len(mergeA), "time_cap_s": budget.Seconds()},
 		"extension_beyond_bounds":         extension,
 		"levels":                          levels,
@@ -625,5 +650,7 @@ func main() {
 		"canonical-key merging is sound for the code as it stands (argument at canon() and symCanon()); the merge oracle compares next-operation observations over the merge alphabet on merges and reports a difference as a violation",
 		"R1 and the Hash() comparisons are evaluated for the first history reaching each canonical state; every further history reaching it is compared on members, powers, accums, total and proposer (R3, R4, membership, merge oracle)",
 		"fairness (R5) is not evaluated for sets whose total power exceeds 64 (the ~2^60 vector)",
+		"state chains (coverage.state_chains): block validity is not the subject, the block-verifier hook of state.State accepts every block and blocks carry an empty last commit; the application behind the hook events is a stub",
+		"replicas (coverage.replicas): CONSNET executions as in C01/C12 (network, timers and disk played by the harness, fair default schedule); the reference proposer is computed by the monitor with the same ValidatorSet code on the path 'one step per height, then one per round' - what is compared is the path a replica took, not the selection arithmetic (that is parts a and c)",
 	})
 }
